@@ -187,13 +187,55 @@ pub fn valid(ti: usize) -> (Vec<u8>, Vec<AttKind>) {
     }
 }
 
+/// senders contained in a decoded value (to check that they belong to this message)
+pub trait Senders {
+    fn senders(&self) -> Vec<IpcSender<u32>> {
+        vec![]
+    }
+}
+impl Senders for u64 {}
+impl Senders for String {}
+impl Senders for Vec<u8> {}
+impl Senders for (u8, String) {}
+impl Senders for Option<u32> {}
+impl Senders for E {}
+impl Senders for IpcReceiver<u32> {}
+impl Senders for IpcSharedMemory {}
+impl Senders for IpcSender<u32> {
+    fn senders(&self) -> Vec<IpcSender<u32>> {
+        vec![self.clone()]
+    }
+}
+impl Senders for (IpcSender<u32>, IpcSender<u32>) {
+    fn senders(&self) -> Vec<IpcSender<u32>> {
+        vec![self.0.clone(), self.1.clone()]
+    }
+}
+impl Senders for Vec<IpcSender<u32>> {
+    fn senders(&self) -> Vec<IpcSender<u32>> {
+        self.clone()
+    }
+}
+impl Senders for MixT {
+    fn senders(&self) -> Vec<IpcSender<u32>> {
+        vec![self.tx.clone()]
+    }
+}
+
+std::thread_local! {
+    static DECODED_SENDERS: RefCell<Vec<IpcSender<u32>>> = RefCell::new(Vec::new());
+}
+
 fn dec<T>(orx: OpaqueIpcReceiver) -> Result<(Box<dyn Any>, IpcReceiver<T>), (String, IpcReceiver<T>)>
 where
-    T: for<'de> Deserialize<'de> + Serialize + 'static,
+    T: for<'de> Deserialize<'de> + Serialize + Senders + 'static,
 {
     let rx: IpcReceiver<T> = orx.to();
     match rx.recv() {
-        Ok(v) => Ok((Box::new(v), rx)),
+        Ok(v) => {
+            DECODED_SENDERS.with(|d| *d.borrow_mut() = v.senders());
+            Ok((Box::new(v), rx))
+        },
         Err(e) => Err((format!("{:?}", e), rx)),
     }
 }
@@ -258,6 +300,22 @@ fn body(c: &Case) -> Result<(), String> {
             obs(format!("{}", if res.is_ok() { "value" } else { "error" }));
             if let Ok(v) = res {
                 keep_alive.push(v);
+                // an endpoint handed to the program must be one that was attached to this message
+                // (checked when every attachment is a sender, where direction cannot be confused)
+                let got: Vec<IpcSender<u32>> = DECODED_SENDERS.with(|d| std::mem::take(&mut *d.borrow_mut()));
+                if !c.atts.is_empty() && c.atts.iter().all(|k| *k == AttKind::Tx) {
+                    for (j, s) in got.iter().enumerate() {
+                        let nonce = 77_000 + j as u32;
+                        if s.send(nonce).is_err() {
+                            return Err(format!("[foreign-endpoint] decoded sender #{} is unusable", j));
+                        }
+                        let hit = kept.iter().any(|k| matches!(k, Kept::RxOf(r) if matches!(r.try_recv(), Ok(n) if n == nonce)));
+                        if !hit {
+                            return Err(format!("[foreign-endpoint] decoded sender #{} does not lead to any channel that was attached to this message", j));
+                        }
+                    }
+                }
+                drop(got);
             }
             keep_alive.push(rxbox);
         },
